@@ -3,6 +3,7 @@
 pub mod spec;
 pub mod c01;
 pub mod c02;
+pub mod c03;
 pub mod c04;
 pub mod c08;
 pub mod c15;
